@@ -269,7 +269,7 @@ def u_limit(c):
     from pyvc.standin import httpclient as HC
     limit = c.choose("max_body_size", [10, 1000])
     over = c.choose("body", ["limit", "limit+1"])
-    framing = c.choose("framing", ["content-length", "chunked", "close-delimited", "gzip-decompressed", "gzip-compressed-small-decompressed-large"])
+    framing = c.choose("framing", ["content-length", "chunked", "close-delimited", "gzip-decompressed", "gzip-compressed-small-decompressed-large", "gzip-bomb-watched-by-a-streaming-callback"])
     seg = c.choose("segmentation", ["all-at-once", "two-halves"])
     n = limit + (1 if over == "limit+1" else 0)
     body = (b"0123456789" * (n // 10 + 1))[:n]
@@ -285,6 +285,17 @@ def u_limit(c):
             body = b"a" * n
         zb = z(body)
         data = hdr(b"Content-Encoding: gzip", b"Content-Length: %d" % len(zb)) + zb
+    if framing.startswith("gzip-bomb"):
+        # what reaches the application counts, not only how the fetch ends: a body inflating to many times the limit, watched piece by piece
+        big = b"a" * (limit * 200 + (1 if over == "limit+1" else 0))
+        zb = z(big)
+        data = hdr(b"Content-Encoding: gzip", b"Content-Length: %d" % len(zb)) + zb
+        r = HC.run_fetches([dict(url="http://example.com/x", decompress_response=True, _stream=True)], [HC.Conn(pieces=cut(data, seg), eof=True)], client_kwargs=dict(max_body_size=limit))
+        delivered = sum(len(x) for x in r["streamed"][0])
+        c.cover("limit/%s" % framing)
+        c.values = {"delivered_to_streaming_callback": delivered, "limit": limit, "outcome": repr(r["results"][0])[:120]}
+        c.oblige("post/never-more-than-max_body_size-bytes-reach-the-application-and-the-fetch-fails", delivered <= limit and r["results"][0][0] != "response")
+        return
     r = HC.run_fetches([dict(url="http://example.com/x", decompress_response=True)], [HC.Conn(pieces=cut(data, seg), eof=True)], client_kwargs=dict(max_body_size=limit))
     got = r["results"][0]
     c.cover("limit/%s/%s" % (framing, over))
